@@ -142,13 +142,15 @@ impl FileSystem for MemoryFS {
         let prefix = format!("{}/", path);
         let handle = self.handle.read().unwrap();
         let mut found_directory = false;
+        let mut is_directory = false;
         #[allow(clippy::needless_collect)] // need collect to satisfy lifetime requirements
         let entries: Vec<_> = handle
             .files
             .iter()
-            .filter_map(|(candidate_path, _)| {
+            .filter_map(|(candidate_path, candidate)| {
                 if candidate_path == path {
                     found_directory = true;
+                    is_directory = candidate.file_type == VfsFileType::Directory;
                 }
                 if candidate_path.starts_with(&prefix) {
                     let rest = &candidate_path[prefix.len()..];
@@ -161,6 +163,9 @@ impl FileSystem for MemoryFS {
             .collect();
         if !found_directory {
             return Err(VfsErrorKind::FileNotFound.into());
+        }
+        if !is_directory {
+            return Err(VfsErrorKind::Other("Not a directory".into()).into());
         }
         Ok(Box::new(entries.into_iter()))
     }
@@ -293,6 +298,8 @@ impl FileSystem for MemoryFS {
 
     fn remove_file(&self, path: &str) -> VfsResult<()> {
         let mut handle = self.handle.write().unwrap();
+        let file = handle.files.get(path).ok_or(VfsErrorKind::FileNotFound)?;
+        ensure_file(file)?;
         handle
             .files
             .remove(path)
